@@ -1,6 +1,7 @@
 """C09: no reply shape can crash or wedge the engine."""
 import os, sys
 sys.path.insert(0, os.path.dirname(__file__))
+from stream_jobs import JOBS as _SJ, LEAN_MODULES as _SM, RULE as _SR, ASSUMPTIONS as _SA
 from funnel_common import funnel_job, funnel_conc_job, funnel_shared_job, FUNNEL_RULE, FUNNEL_ASSUME
 
 PROP = {
@@ -10,6 +11,11 @@ PROP = {
     "strength": 'task-level totality: full; whole pass and v1: partial',
     "assumptions": FUNNEL_ASSUME,
 }
+PROP["jobs"] += _SJ["C09"]
+PROP["lean_modules"] += _SM["C09"]
+PROP["rule"] += " || v1: " + _SR
+PROP["assumptions"] = list(PROP["assumptions"]) + _SA
+
 META = {
     "text": "Lean 4 totality theorems: under the batch invariant no mutator indexes out of range (C09_mutators_total, guards shown necessary), ProcessorTask.Do and DestinationTask.Do return ok-with-invariant or an error for ANY reply list (any length, kinds, positions, errors) and never panic (C09_procDo_total, C09_destDo_total, *_never_panics), the retry recursion is bounded (C09_retry_terminates). Every generated case (incl. a malformed reply stream) must end without panic/hang in the real engine; outcome class and event log equal the model's.",
     "note": 'v2 engine: task-level totality proved; pass-level by correspondence. v1 engine and RunnableProcessor condition merge: Props/C09Stream when merged. PARTIAL: the composition of these leaf theorems with the task recursion of Worker.doTaskAttempt/doNextTask (whole-pass statement) is validated by equality of event logs against the executable Lean model and by the Lean-defined trace monitor on every implementation trace (serial fan-out orders, real concurrent fan-out, several sources into one shared sink), not proved. v1 (default engine) part: Props/*Stream when merged. Trusted: Lean kernel, factgen, harness/fakes, Go runtime.',
